@@ -4,6 +4,7 @@ From Coq Require Import ZArith List Bool Lia ZifyBool.
 From V Require Import C15BitFmt C15Ebsp C15H264 C15Hevc C15BitFmtProofs C15EbspProofs C15H264Proofs.
 Import ListNotations.
 Open Scope Z_scope.
+Opaque K.
 
 Ltac ref5 :=
   repeat first
@@ -73,13 +74,13 @@ Proof.
   intros a H. unfold h265_ranges in H. apply andb_prop in H. destruct H as [Ht Hc].
   unfold go_width265, go_height265, spec_width265, spec_height265, go_fps265, spec_fps265.
   destruct (get a h_conf_flag =? 1) eqn:C.
-  - repeat split; try lia.
+  - split; [|split]; try lia.
     destruct (get a v_timing_present =? 1) eqn:T.
     + replace (get a v_nut =? 0) with false by lia. replace (0 <? get a v_nut) with true by lia. reflexivity.
     + replace (get a v_nut =? 0) with true by lia. reflexivity.
   - assert (get a h_conf_left = 0 /\ get a h_conf_right = 0 /\ get a h_conf_top = 0 /\ get a h_conf_bottom = 0) by lia.
     destruct H as [H1 [H2 [H3 H4]]]. rewrite H1, H2, H3, H4.
-    repeat split; try lia.
+    split; [|split]; try lia.
     destruct (get a v_timing_present =? 1) eqn:T.
     + replace (get a v_nut =? 0) with false by lia. replace (0 <? get a v_nut) with true by lia. reflexivity.
     + replace (get a v_nut =? 0) with true by lia. reflexivity.
@@ -185,5 +186,5 @@ Proof.
   assert (H1 : h265_ranges a = true) by congruence.
   assert (H2 : uses_inter_rps a = true) by congruence.
   assert (H3 : vobs_eqb (go_h265_obs (nal_of_bits b)) None = true) by congruence.
-  repeat split; auto. apply vobs_eqb_eq. exact H3.
+  split; [|split]; auto. apply vobs_eqb_eq. exact H3.
 Qed.
